@@ -1,5 +1,6 @@
 import M3d.Lemmas.FastMapRefine
 import M3d.Lemmas.MeshQueries
+import M3d.Lemmas.MeshIter
 /-!
 # C09 — a mesh (and the coordinate-keyed maps underneath) answers as the plain set of faces would
 
@@ -39,17 +40,24 @@ example :
 /-! ### The mesh: lazy vertex index vs the plain set of faces -/
 open M3d.Mesh
 
-/-- Mesh-mutating operations of a history (queries that force the lazy index are `touch`). -/
+/-- Mesh-mutating operations of a history (queries that force the lazy index are `touch`).
+`iter script snap` is `Iterate` / `IterateSorted` over the snapshot order `snap` with a callback
+that performs the `Add`/`Remove` calls `script k` during its `k`-th invocation; `iterVerts` is
+`IterateVertices` with such a callback.  (No restriction on `snap`: the coherence theorems hold
+for every order, the visit theorems below say what a snapshot order implies.) -/
 inductive MeshOp where
   | add (f : Nat)
   | remove (f : Nat)
   | touch            -- any of Find / Neighbors / VertexSlice / IterateVertices: builds the index
-deriving Repr
+  | iter (script : Nat → List IterAct) (snap : List Nat)
+  | iterVerts (script : Nat → List IterAct) (snap : List Nat)
 
 def stepMesh (h : Nat → UInt64) (tri : Nat → Tri) (m : Mesh.Mesh) : MeshOp → Mesh.Mesh
   | .add f => m.add h tri f
   | .remove f => m.remove h tri f
   | .touch => (m.withIndex h tri).1
+  | .iter script snap => (m.iterate h tri script snap).1
+  | .iterVerts script snap => (m.iterateVerts h tri script snap).1
 
 /-- **The index is always coherent with the face set**: after any sequence of `Add` / `Remove`
 and index-forcing queries, in any order relative to the first lazy build, for every hash function
@@ -69,6 +77,8 @@ theorem index_coherent (h : Nat → UInt64) (tri : Nat → Tri) (ops : List Mesh
     | add f => exact coherent_add h tri c f
     | remove f => exact coherent_remove h tri c f
     | touch => exact (coherent_withIndex h tri c).1
+    | iter script snap => exact iterate_coherent h tri script snap c
+    | iterVerts script snap => exact (iterateVerts_eq_spec h tri script snap c).2.2
 
 /-- The face set itself behaves as a plain set: membership after `Add`/`Remove`. -/
 theorem faces_add_remove (h : Nat → UInt64) (tri : Nat → Tri) (m : Mesh.Mesh) (f g : Nat) :
@@ -111,6 +121,166 @@ theorem query_eq_fresh (h : Nat → UInt64) (tri : Nat → Tri) (ops : List Mesh
   have c : Coherent h tri m := index_coherent h tri ops
   exact ⟨fun p rest => find_perm_spec h tri c p rest, vertexSlice_spec h tri c,
     fun f g => neighbors_spec h tri c f g⟩
+
+
+/-! ### Iterations whose callback adds and removes faces -/
+
+/-- The plain face set at the moment the `i`-th callback invocation of an iteration starts. -/
+def facesNow (script : Nat → List IterAct) (faces : List Nat) (i : Nat) : List Nat :=
+  timeline (fun fs k => specActs fs (script k)) faces 0 i
+
+/-- **`Iterate` / `IterateSorted` with a callback that adds and removes faces** (documented: "If f
+adds or removes triangles, they will not be visited"): for every snapshot order `snap` without
+repetition, every callback script, every hash function and every state of the lazy index,
+* the faces handed to the callback and the resulting face set are those the plain set of faces
+  gives (`specIterate`: no index involved), and the face set afterwards is the plain set after as
+  many callback invocations as there were visits;
+* the visited list is a sublist of the snapshot (snapshot order, no face twice, a face added by
+  the callback is never visited);
+* the `i`-th visited face is a member of the mesh at the moment of its visit;
+* exactly: the face at a snapshot position is visited iff it is a member in the state reached
+  after the visits of the earlier positions (whose visits are a prefix of the visits) — i.e. the
+  visited list is the snapshot filtered by current membership at the time each face is reached;
+* hence a snapshot face that is never visited was a non-member at some moment of the loop. -/
+theorem iterate_visits_current_members (h : Nat → UInt64) (tri : Nat → Tri)
+    (script : Nat → List IterAct) (snap : List Nat) (m : Mesh.Mesh) (hn : snap.Nodup) :
+    let r := m.iterate h tri script snap
+    (r.2 = (specIterate script snap m.faces).2 ∧ r.1.faces = facesNow script m.faces r.2.length) ∧
+    (r.2.Sublist snap ∧ r.2.Nodup) ∧
+    (∀ i (hi : i < r.2.length), r.2[i] ∈ facesNow script m.faces i) ∧
+    (∀ pre x post, snap = pre ++ x :: post →
+      (specIterate script pre m.faces).2 <+: r.2 ∧
+      (x ∈ r.2 ↔ x ∈ facesNow script m.faces (specIterate script pre m.faces).2.length)) ∧
+    (∀ x, x ∈ snap → x ∉ r.2 → ∃ i, i ≤ r.2.length ∧ x ∉ facesNow script m.faces i) := by
+  intro r
+  obtain ⟨e1, e2⟩ := iterate_eq_spec h tri script snap m
+  have e2' : r.2 = (specIterate script snap m.faces).2 := e2
+  have e1' : r.1.faces = (specIterate script snap m.faces).1 := e1
+  have hsub : r.2.Sublist snap := by rw [e2']; exact iterGen_sublist _ _ _ _ _
+  refine ⟨⟨e2', ?_⟩, ⟨hsub, hsub.nodup hn⟩, ?_, ?_, ?_⟩
+  · rw [e1', e2']; unfold specIterate facesNow; exact iterGen_final _ _ _ _ _
+  · intro i hi
+    have hi' : i < (specIterate script snap m.faces).2.length := by rw [← e2']; exact hi
+    have := iterGen_visited (fun (fs : List Nat) x => decide (x ∈ fs))
+      (fun fs k => specActs fs (script k)) snap m.faces 0 i hi'
+    simp only [decide_eq_true_eq] at this
+    have e : r.2[i] = (specIterate script snap m.faces).2[i] := by simp only [e2']
+    rw [e]; exact this
+  · intro pre x post hs
+    subst hs
+    rw [e2']
+    refine ⟨iterGen_prefix _ _ pre (x :: post) m.faces 0, ?_⟩
+    have := iterGen_mem_iff (fun (fs : List Nat) x => decide (x ∈ fs))
+      (fun fs k => specActs fs (script k)) pre x post m.faces 0 hn
+    simp only [decide_eq_true_eq] at this
+    exact this
+  · intro x hx hnv
+    rw [e2'] at hnv ⊢
+    obtain ⟨i, hi, hv⟩ := iterGen_skipped (fun (fs : List Nat) x => decide (x ∈ fs))
+      (fun fs k => specActs fs (script k)) snap m.faces 0 x hx hnv
+    exact ⟨i, hi, by simpa [facesNow] using hv⟩
+
+/-- The snapshot of `IterateSorted` with a comparator that orders the faces as the duplicate-free
+list `ord` does is the current face set in that order (what the driver iterates over). -/
+theorem iterate_sorted_snapshot {ord faces : List Nat} (ho : ord.Nodup) (hf : faces.Nodup)
+    (hsub : ∀ f ∈ faces, f ∈ ord) :
+    (sortedSnap ord faces).Perm faces ∧ (sortedSnap ord faces).Sublist ord ∧
+      (sortedSnap ord faces).Nodup :=
+  ⟨(sortedSnap_perm ho hf hsub).1, (sortedSnap_perm ho hf hsub).2,
+    (sortedSnap_perm ho hf hsub).2.nodup ho⟩
+
+/-- **`IterateVertices` with a callback that adds and removes faces**: on every mesh reachable by
+a history, for every snapshot order of the vertices, the vertices handed to the callback are those
+the plain set of faces gives (`specIterateVerts`: a snapshot vertex is visited iff it is a corner
+of some CURRENT face when it is reached), in snapshot order, none twice, none that only an added
+face brought in; the `i`-th visited vertex is a vertex of the mesh at that moment; and the mesh
+stays coherent. -/
+theorem iterateVerts_visits_current_vertices (h : Nat → UInt64) (tri : Nat → Tri)
+    (ops : List MeshOp) (script : Nat → List IterAct) (snap : List Nat) (hn : snap.Nodup) :
+    let m := ops.foldl (stepMesh h tri) Mesh.new
+    let r := m.iterateVerts h tri script snap
+    (r.2 = (specIterateVerts tri script snap m.faces).2 ∧
+      r.1.faces = facesNow script m.faces r.2.length) ∧
+    (r.2.Sublist snap ∧ r.2.Nodup) ∧
+    (∀ i (hi : i < r.2.length), r.2[i] ∈ specVertices tri (facesNow script m.faces i)) ∧
+    (∀ pre x post, snap = pre ++ x :: post →
+      (specIterateVerts tri script pre m.faces).2 <+: r.2 ∧
+      (x ∈ r.2 ↔ x ∈ specVertices tri
+        (facesNow script m.faces (specIterateVerts tri script pre m.faces).2.length))) := by
+  intro m r
+  have c : Coherent h tri m := index_coherent h tri ops
+  obtain ⟨e1, e2, _⟩ := iterateVerts_eq_spec h tri script snap c
+  have e2' : r.2 = (specIterateVerts tri script snap m.faces).2 := e2
+  have e1' : r.1.faces = (specIterateVerts tri script snap m.faces).1 := e1
+  have hsub : r.2.Sublist snap := by rw [e2']; exact iterGen_sublist _ _ _ _ _
+  refine ⟨⟨e2', ?_⟩, ⟨hsub, hsub.nodup hn⟩, ?_, ?_⟩
+  · rw [e1', e2']; unfold specIterateVerts facesNow; exact iterGen_final _ _ _ _ _
+  · intro i hi
+    have hi' : i < (specIterateVerts tri script snap m.faces).2.length := by rw [← e2']; exact hi
+    have := iterGen_visited (fun (fs : List Nat) p => decide (p ∈ specVertices tri fs))
+      (fun fs k => specActs fs (script k)) snap m.faces 0 i hi'
+    simp only [decide_eq_true_eq] at this
+    have e : r.2[i] = (specIterateVerts tri script snap m.faces).2[i] := by simp only [e2']
+    rw [e]; exact this
+  · intro pre x post hs
+    subst hs
+    rw [e2']
+    refine ⟨iterGen_prefix _ _ pre (x :: post) m.faces 0, ?_⟩
+    have := iterGen_mem_iff (fun (fs : List Nat) p => decide (p ∈ specVertices tri fs))
+      (fun fs k => specActs fs (script k)) pre x post m.faces 0 hn
+    simp only [decide_eq_true_eq] at this
+    exact this
+
+/-- **The oracle used for the unsorted iterations raises no false alarm and accepts only
+snapshots.**  Go's map order is not observable, so for `Iterate` / `IterateVertices` the harness
+reports the visit sequence `V` it saw and the driver runs the model on `explainSnap … V`.  If `V`
+is what the loop gives for SOME snapshot order `snap` of the current elements `univ` (the faces,
+resp. the index keys), then the rebuilt order is again a permutation of `univ` and the model run
+on it returns exactly `V`.  (Conversely the driver only accepts a rebuilt order that is a
+permutation of `univ`, and then `iterate_visits_current_members` applies to it: a reported
+sequence with a non-member, a repeated or an added element cannot be reproduced.)  Stated for the
+generic loop, of which `Mesh.iterate` and `Mesh.iterateVerts` are instances. -/
+theorem iterate_oracle_explains {σ : Type} (vis : σ → Nat → Bool) (step : σ → Nat → σ) (s : σ)
+    (snap univ : List Nat) (hp : snap.Perm univ) (hn : univ.Nodup) :
+    let V := (iterGen vis step snap s 0).2
+    (explainSnap vis step s univ V).Perm univ ∧
+      (iterGen vis step (explainSnap vis step s univ V) s 0).2 = V := by
+  intro V
+  have hsn : snap.Nodup := hp.nodup_iff.2 hn
+  have hsub : V.Sublist snap := iterGen_sublist vis step snap s 0
+  refine ⟨explainSnap_perm vis step s univ V hn (hsub.nodup hsn)
+    (fun x hx => hp.mem_iff.1 (hsub.subset hx)), ?_⟩
+  exact explainSnap_explains vis step s snap univ (fun x hx => hp.mem_iff.2 hx)
+
+/-- Non-vacuity of the oracle: Go hands out the snapshot `[2, 0, 3, 1]`; the first callback call
+removes face 1, so the visits are `[2, 0, 3]`; the rebuilt order puts the unvisited face 1 at the
+first moment it is a non-member (after one visit) and reproduces the visits. -/
+example :
+    let tri : Nat → Tri := fun f => (f, f + 1, f + 2)
+    let h : Nat → UInt64 := fun _ => 5
+    let m := [MeshOp.add 0, .add 1, .add 2, .add 3, .touch].foldl (stepMesh h tri) Mesh.new
+    let script : Nat → List IterAct := fun k => if k = 0 then [.rem 1, .add 4] else []
+    let E := explainSnap (fun (m : Mesh.Mesh) x => decide (x ∈ m.faces))
+      (fun m k => applyActs h tri m (script k)) m m.faces [2, 0, 3]
+    (m.iterate h tri script [2, 0, 3, 1]).2 = [2, 0, 3] ∧ E = [2, 1, 0, 3] ∧
+      (m.iterate h tri script E).2 = [2, 0, 3] := by
+  decide
+
+/-- Non-vacuity: faces 0..3 in sorted order; during its first call the callback removes face 2
+(it sorts later: it must NOT be visited), adds face 4 (never visited) and removes face 3, which
+the second call re-adds before it is reached (so it IS visited).  Vertex iteration: the first call
+removes the only faces with the corners 4 and 5, which are then skipped. -/
+example :
+    let tri : Nat → Tri := fun f => (f, f + 1, f + 2)
+    let h : Nat → UInt64 := fun _ => 5
+    let m := [MeshOp.add 0, .add 1, .add 2, .add 3, .touch].foldl (stepMesh h tri) Mesh.new
+    let script : Nat → List IterAct := fun k =>
+      if k = 0 then [.rem 2, .add 4, .rem 3] else if k = 1 then [.add 3] else []
+    (m.iterate h tri script (sortedSnap [0, 1, 2, 3, 4] m.faces)).2 = [0, 1, 3] ∧
+    (m.iterate h tri script (sortedSnap [0, 1, 2, 3, 4] m.faces)).1.faces = [0, 1, 4, 3] ∧
+    (m.iterateVerts h tri (fun k => if k = 0 then [.rem 3, .rem 2] else []) [0, 1, 2, 3, 4, 5]).2
+      = [0, 1, 2, 3] := by
+  decide
 
 /-- Reversing orientation as specified (`specInvert`, what the correspondence compares
 `InvertNormals` with) reverses every face and is an involution. -/
